@@ -248,8 +248,15 @@ def run(ctx):
         c.require_pass(ctx, R4, dec, ARMOR + g, ("okret",), "SlatepackArmor::decode Ok requires %s Ok" % g)
     ec = ctx.fn(ARMOR + "error_check")
     if ec:
-        eqs = [(b, t) for b, t in ec.calls() if (t.get("f") or "").endswith("Iterator::eq")]
-        if len(eqs) != 1:
+        eqs = [(b, t) for b, t in ec.calls() if (t.get("f") or "").endswith("Iterator::eq") or (t.get("f") or "") == "core::cmp::PartialEq::eq"]
+        # a folded comparison: differences must be accumulated with |, never with ^ or + (differences would cancel)
+        folds = [fn_ for k, fn_ in db.fns.items() if k.startswith(ARMOR + "error_check::{closure")]
+        cancelling = [fn_ for fn_ in folds for bb in fn_.bbs for st in bb["s"]
+                      if st["k"] == "a" and st["d"] == [0, []] and st["r"]["k"] == "bin" and st["r"]["op"] in ("BitXor", "Add", "AddWithOverflow", "Sub", "SubWithOverflow", "BitAnd")]
+        if cancelling:
+            run.instance(R4, {"fn": "error_check", "obligation": "Ok only if the supplied code equals all of generate_check(slate bytes)"}, held=False)
+            run.finding(Finding(R4, ec.id, "error_check folds the byte differences with an operator under which they cancel (^, +, -, &): a corrupted text whose differences cancel passes the checksum", site=ec.loc()))
+        elif len(eqs) != 1:
             run.error("C10.R4: iterator equality not found in error_check")
         else:
             b, t = eqs[0]
@@ -261,7 +268,7 @@ def run(ctx):
             gc = cfg.find_calls(ec, ARMOR + "generate_check")
             h3 = bool(gc) and all(("arg", 2) in vf.origins(ec, tt["a"][0]) for _b, tt in gc)
             # no truncation of either side: no slicing calls in error_check
-            h4 = not any((tt.get("f") or "").startswith("core::ops::index::Index") or "take" in (tt.get("f") or "").split("::")[-1] for _b, tt in ec.calls())
+            h4 = not any(((tt.get("f") or "").startswith("core::ops::index::Index") and "core::ops::range::RangeFull" not in (tt.get("ga") or [])) or "take" in (tt.get("f") or "").split("::")[-1] for _b, tt in ec.calls())
             run.instance(R4, {"fn": "error_check", "obligation": "Ok only if the supplied code equals all of generate_check(slate bytes)"}, held=h and h2 and h3 and h4)
             if not (h and h2 and h3 and h4):
                 run.finding(Finding(R4, ec.id, "error_check no longer compares the whole code with generate_check(slate bytes)", site=ec.loc(), detail="okpath=%s operands=%s arg=%s nosubslice=%s" % (h, h2, h3, h4)))
